@@ -144,7 +144,10 @@ class Session:
     def __init__(self, src, cfg, helper_src=None, abi=None):
         # `abi` is requested only once (reference configuration): with experimental_codegen the abi output also runs the
         # legacy generator (gas estimates), which would mix the two pipelines
-        self.out = compile_src(src, cfg, formats=("bytecode", "layout") if abi is not None else ("bytecode", "abi", "layout"))
+        self.out = compile_src(src, cfg, formats=("bytecode", "layout", "asm", "asm_runtime") if abi is not None
+                               else ("bytecode", "abi", "layout", "asm", "asm_runtime"))
+        from vlib.c01_harness import check_target_opcodes
+        check_target_opcodes(self.out, cfg.evm)
         self.abi = abi if abi is not None else self.out["abi"]
         self.chain = Chain(cfg.evm)
         self.helper = None
